@@ -1,5 +1,6 @@
 """C26 — Protobuf encoding round-trips (encode_proto / parse_proto over the bundled descriptor sets)."""
 import json
+import os
 import struct
 
 import vlib
@@ -51,6 +52,10 @@ DESC_FILES = [
     ("test_protobuf/v1/test_protobuf.desc", "test_protobuf.v1.Person"),
     ("test_protobuf3/v1/test_protobuf3.desc", "test_protobuf3.v1.Person"),
     ("test_protobuf_maps/v1/test_protobuf_maps.desc", "test_protobuf_maps.v1.Maps"),
+    # not shipped with /repo: kinds, labels and map shapes the bundled sets do not use (props/C26_extra/*.proto);
+    # it ties the rest of the model (sint/fixed/sfixed, packed floats/bools/enums, unpacked scalars, integer map keys,
+    # message map values, a recursive type, proto2 presence and packing) to the implementation
+    (os.path.join(vlib.VERIF, "props", "C26_extra", "extra.desc"), "extra.v1.Tree"),
 ]
 
 SCALAR_KINDS = {"int32": "KInt32", "int64": "KInt64", "uint32": "KUint32", "uint64": "KUint64", "sint32": "KSint32",
@@ -93,7 +98,7 @@ def coq_str(s):
 
 def coq_kind(p, fl):
     if fl["kind"] == "enum":
-        return "(KEnum [%s])" % "; ".join("(%s, (%d)%%Z)" % (coq_str(n), z) for n, z in fl["enum"])
+        return "(KEnum [%s] (%d)%%Z)" % ("; ".join("(%s, (%d)%%Z)" % (coq_str(n), z) for n, z in fl["enum"]), fl["enum_default"])
     if fl["kind"] == "message":
         return "(KMsg %d)" % p["index"][fl["msg"]]
     return SCALAR_KINDS[fl["kind"]]
@@ -210,7 +215,12 @@ def shaped_msg(rng, p, m, depth=0):
     kvs = []
     for fl in m["fields"]:
         r = rng.random()
-        if r < 0.25 or (depth >= 3 and fl["kind"] == "message" and not fl["is_map"] and r < 0.8):
+        if r < 0.25:
+            continue
+        deep = fl["kind"] == "message" and (not fl["is_map"] or
+                                            next(x for x in p["messages"][p["index"][fl["msg"]]]["fields"]
+                                                 if x["num"] == 2)["kind"] == "message")
+        if deep and (depth >= 4 or (depth >= 2 and r < 0.85)):
             continue
         want_default = r < 0.45
         if fl["is_map"]:
@@ -220,7 +230,10 @@ def shaped_msg(rng, p, m, depth=0):
             n = 0 if want_default else rng.choice([1, 1, 2, 3])
             ent = {}
             for _ in range(n):
-                ent[map_key(rng, kf)] = shaped_scalar(rng, p, vf, depth, want_default=rng.random() < 0.3)
+                x = shaped_scalar(rng, p, vf, depth, want_default=rng.random() < 0.3)
+                if isinstance(x, dict) and x.get("f") == "8000000000000000" and not vf["presence"]:
+                    x = jf_bits(0)         # -0.0 in a map value without presence comes back as 0.0: not message-shaped
+                ent[map_key(rng, kf)] = x
             kvs.append((fl["name"], jo(ent)))
         elif fl["is_list"]:
             n = 0 if want_default else rng.choice([1, 1, 2, 3, 5])
